@@ -32,6 +32,7 @@ def main():
     tasks = spec.tasks(tier)
     if a.only:
         import re
+        os.environ['VERIF_ONLY'] = '1'
         tasks = [t for t in tasks if re.search(a.only, t[0])]
     need = getattr(spec, 'WORLD', ('marginfi', 'typecrate'))
     for s in H.run_tasks(tasks, need, a.jobs):
